@@ -415,7 +415,11 @@ func TestVerifC08(t *testing.T) {
 	for k := 0; k < in.Extreme; k++ {
 		run++
 		wx.emit(c08M{"ev": "Reset", "run": run, "kind": "extreme"})
-		c08Extreme(wx, run, pool, rng)
+		if k%2 == 0 {
+			c08ExtremeJoin(wx, run, pool, rng)
+		} else {
+			c08Extreme(wx, run, pool, rng)
+		}
 	}
 	wx.f.Close()
 	t.Logf("C08 types harness: %d case, %d rotate, %d hist, %d extreme events", wc.n, wr.n, wh.n, wx.n)
@@ -575,6 +579,161 @@ func (p *c08Pool) projectBig(vs *ValidatorSet) []c08BigVal {
 	return out
 }
 
+func (p *c08Pool) propID(vs *ValidatorSet) int {
+	if vs == nil || vs.Proposer == nil {
+		return 0
+	}
+	return p.ids[string(vs.Proposer.Address)]
+}
+
+func c08BigBatch(batch []*Validator, pool *c08Pool) []c08BigVal {
+	desc := []c08BigVal{}
+	for _, v := range batch {
+		desc = append(desc, c08BigVal{A: pool.ids[string(v.Address)], P: c08Limbs(v.VotingPower), Pr: c08Limbs(0)})
+	}
+	return desc
+}
+
+func c08XNew(w *c08Writer, run int, pool *c08Pool, init []*Validator) *ValidatorSet {
+	vs, cls := c08New(init)
+	w.emit(c08M{"ev": "XNew", "run": run, "err": cls, "batch": c08BigBatch(init, pool), "post": pool.projectBig(vs),
+		"prop": pool.propID(vs), "max": c08Limbs(MaxTotalVotingPower), "imax": c08Limbs(math.MaxInt64), "imin": c08Limbs(math.MinInt64)})
+	return vs
+}
+
+func c08XInc(w *c08Writer, run int, pool *c08Pool, vs *ValidatorSet, k int) {
+	cls := c08Inc(vs, int32(k))
+	w.emit(c08M{"ev": "XInc", "run": run, "times": k, "err": cls, "post": pool.projectBig(vs), "prop": pool.propID(vs)})
+}
+
+func c08XUpdate(w *c08Writer, run int, pool *c08Pool, vs *ValidatorSet, batch []*Validator, rng *rand.Rand) {
+	perms := []c08M{}
+	for _, pm := range c08Perms(len(batch), rng, 12) {
+		cp := vs.Copy()
+		chg := make([]*Validator, len(batch))
+		for i, j := range pm {
+			chg[i] = batch[j].Copy()
+		}
+		cls := c08Update(cp, chg)
+		perms = append(perms, c08M{"err": cls, "post": pool.projectBig(cp)})
+	}
+	chg := make([]*Validator, len(batch))
+	for i := range batch {
+		chg[i] = batch[i].Copy()
+	}
+	cls := c08Update(vs, chg)
+	w.emit(c08M{"ev": "XUpdate", "run": run, "batch": c08BigBatch(batch, pool), "err": cls, "post": pool.projectBig(vs),
+		"perms": perms, "prop": pool.propID(vs)})
+}
+
+// directed: the total sits in the top 15% of the allowed range (or the batch swaps a huge
+// validator for large ones, so that the total before removals approaches 2*Max); the batch
+// ADDS validators; the set is then rotated round by round
+func c08ExtremeJoin(w *c08Writer, run int, pool *c08Pool, rng *rand.Rand) {
+	max := MaxTotalVotingPower
+	small := func() int64 { return 1 + int64(rng.Intn(1000)) }
+	// members: ids 1..k, newcomers from k+1..
+	k := 1 + rng.Intn(3)
+	total := max - max/100*int64(rng.Intn(15)) - int64(rng.Intn(100000)) // 85%..100% of max
+	slack := int64(0)
+	if rng.Intn(2) == 0 {
+		slack = 2 + int64(rng.Intn(2000)) // room for small newcomers
+		if rng.Intn(3) == 0 {
+			slack = max / 50
+		}
+	}
+	total -= slack
+	var init []*Validator
+	rest := total
+	for i := 1; i <= k; i++ {
+		p := rest
+		if i < k {
+			switch rng.Intn(3) {
+			case 0:
+				p = rest / 2
+			case 1:
+				p = rest/int64(k-i+1) - int64(rng.Intn(200))
+			default:
+				p = small()
+			}
+		}
+		if p <= 0 {
+			p = 1
+		}
+		rest -= p
+		init = append(init, pool.val(c08Change{A: i, P: p}))
+	}
+	vs := c08XNew(w, run, pool, init)
+	if vs == nil {
+		return
+	}
+	if n := rng.Intn(9); n > 0 {
+		c08XInc(w, run, pool, vs, n)
+	}
+	for step := 0; step < 2+rng.Intn(3); step++ {
+		cur := vs.TotalVotingPower()
+		room := max - cur
+		var batch []*Validator
+		next := 0
+		for id := 1; id <= 10; id++ {
+			if !vs.HasAddress(pool.keys[id-1].Address()) {
+				next = id
+				break
+			}
+		}
+		if next == 0 {
+			break
+		}
+		switch r := rng.Intn(6); {
+		case r < 2 && room >= 1: // one small newcomer, nothing else
+			p := small()
+			if p > room {
+				p = room
+			}
+			batch = append(batch, pool.val(c08Change{A: next, P: p}))
+		case r < 3 && room >= 2: // two newcomers
+			batch = append(batch, pool.val(c08Change{A: next, P: 1 + rng.Int63n(room/2+1)}))
+			if next < 10 && !vs.HasAddress(pool.keys[next].Address()) {
+				batch = append(batch, pool.val(c08Change{A: next + 1, P: 1 + rng.Int63n(room/2+1)}))
+			}
+		case r < 5 && len(vs.Validators) >= 1: // swap the biggest member for newcomers: tvp approaches 2*max
+			big := vs.Validators[0]
+			batch = append(batch, &Validator{Address: big.Address, PubKey: big.PubKey, VotingPower: 0})
+			free := room + big.VotingPower
+			p := free - int64(rng.Intn(1000))
+			if rng.Intn(3) == 0 {
+				p = free / 2
+			}
+			if p <= 0 {
+				p = 1
+			}
+			batch = append(batch, pool.val(c08Change{A: next, P: p}))
+			if rng.Intn(2) == 0 && free-p >= 1 && next < 10 && !vs.HasAddress(pool.keys[next].Address()) {
+				batch = append(batch, pool.val(c08Change{A: next + 1, P: 1 + rng.Int63n(free-p)}))
+			}
+		default: // shrink a member, then the room is used by a newcomer in the same batch
+			m := vs.Validators[rng.Intn(len(vs.Validators))]
+			np := m.VotingPower/2 + 1
+			batch = append(batch, &Validator{Address: m.Address, PubKey: m.PubKey, VotingPower: np})
+			free := room + m.VotingPower - np
+			if free >= 1 {
+				batch = append(batch, pool.val(c08Change{A: next, P: 1 + rng.Int63n(free)}))
+			}
+		}
+		if len(batch) == 0 {
+			continue
+		}
+		rng.Shuffle(len(batch), func(i, j int) { batch[i], batch[j] = batch[j], batch[i] })
+		c08XUpdate(w, run, pool, vs, batch, rng)
+		for n := 1 + rng.Intn(4); n > 0; n-- { // who proposes next, round by round
+			c08XInc(w, run, pool, vs, 1)
+		}
+		if rng.Intn(3) == 0 {
+			c08XInc(w, run, pool, vs, 2+rng.Intn(6))
+		}
+	}
+}
+
 func c08Extreme(w *c08Writer, run int, pool *c08Pool, rng *rand.Rand) {
 	max := MaxTotalVotingPower
 	pick := func() int64 {
@@ -613,23 +772,18 @@ func c08Extreme(w *c08Writer, run int, pool *c08Pool, rng *rand.Rand) {
 		sum += p
 		init = append(init, pool.val(c08Change{A: a + 1, P: p}))
 	}
-	vs, cls := c08New(init)
-	w.emit(c08M{"ev": "XNew", "run": run, "err": cls, "post": pool.projectBig(vs), "max": c08Limbs(max),
-		"imax": c08Limbs(math.MaxInt64), "imin": c08Limbs(math.MinInt64)})
+	vs := c08XNew(w, run, pool, init)
 	if vs == nil {
 		return
 	}
 	steps := 2 + rng.Intn(8)
 	for s := 0; s < steps; s++ {
 		if rng.Intn(3) == 0 {
-			k := 1 + rng.Intn(5)
-			cls := c08Inc(vs, int32(k))
-			w.emit(c08M{"ev": "XInc", "run": run, "times": k, "err": cls, "post": pool.projectBig(vs)})
+			c08XInc(w, run, pool, vs, 1+rng.Intn(5))
 			continue
 		}
 		n := 1 + rng.Intn(4)
 		var batch []*Validator
-		var desc []c08BigVal
 		for _, a := range rng.Perm(npool)[:c08min(n, npool)] {
 			p := pick()
 			switch rng.Intn(8) {
@@ -641,23 +795,7 @@ func c08Extreme(w *c08Writer, run int, pool *c08Pool, rng *rand.Rand) {
 				}
 			}
 			batch = append(batch, pool.val(c08Change{A: a + 1, P: p}))
-			desc = append(desc, c08BigVal{A: a + 1, P: c08Limbs(p), Pr: c08Limbs(0)})
 		}
-		perms := []c08M{}
-		for _, pm := range c08Perms(len(batch), rng, 12) {
-			cp := vs.Copy()
-			chg := make([]*Validator, len(batch))
-			for i, j := range pm {
-				chg[i] = batch[j].Copy()
-			}
-			cls := c08Update(cp, chg)
-			perms = append(perms, c08M{"err": cls, "post": pool.projectBig(cp)})
-		}
-		chg := make([]*Validator, len(batch))
-		for i := range batch {
-			chg[i] = batch[i].Copy()
-		}
-		cls := c08Update(vs, chg)
-		w.emit(c08M{"ev": "XUpdate", "run": run, "batch": desc, "err": cls, "post": pool.projectBig(vs), "perms": perms})
+		c08XUpdate(w, run, pool, vs, batch, rng)
 	}
 }
